@@ -99,6 +99,12 @@ CHECKS = {
    text="XOR game: converted predicate is [f = a xor b]; classical value = max over +-1 assignments for every 0/1 predicate of the enumerated shapes and every distribution (symbolic), equal between the XOR game and its conversion; "
         "constructor rejects exactly invalid distributions; quantum_value = (dual optimum / 4 + 1/2)^reps and its program is Tsirelson's dual SDP; bell_inequality_max's program (m = 2, +-1 and 0/1 outcomes, marginal terms) has the stated "
         "trace / PSD / PPT constraints and the Bell-operator objective rebuilt from the oracle's own index maps."),
+ "C09": dict(engine="symnp + sdpcap", category="translation_validation", design_ref="DESIGN.md §3 C09, §2.2",
+   technique="capture of every cvxpy program built by the real code, exact affine extraction, z3 proofs (T1 definition match, T2 adjoint pairing, T3 embedding certificates with answer functions and referee state as symbols); symbolic execution of unentangled_value and of the product / cloning-operator glue",
+   note="instance data of captured programs concrete (dyadic); cvxpy evaluation trusted for extraction; rho (x) v v^T is PSD for rho >= 0; strong duality and the conic solver trusted; lambda_max as uninterpreted LAPACK kernel; z3 5.1.0",
+   text="Unentangled value = max over all pairs of answer functions of lambda_max (all entries symbolic); every unentangled strategy is a feasible point of the real NPA-with-referee program with its own value (unentangled <= NPA_k), "
+        "NPA constraints imply the non-signalling assemblage conditions and nonsignaling_value's program is the textbook assemblage program (NPA_k <= NS); hedging and cloning primal / dual programs equal the textbook programs and the dual's embedding "
+        "is the adjoint of the primal's partial trace (so they are a dual pair), real and complex instances, 1 and 2 repetitions."),
 }
 NOT_BUILT = "check not built yet in this round (planned per DESIGN.md §3); nothing is claimed"
 NA = {f"C{i:02d}": NOT_BUILT for i in range(1, 21) if f"C{i:02d}" not in CHECKS}
@@ -109,7 +115,7 @@ ENGINES = [
  {"name": "sdpcap", "path": "sdpcap/", "serves_properties": [k for k, v in CHECKS.items() if "sdpcap" in v["engine"]],
   "kind_free_text": "E2: capture of the cvxpy/picos program the real code builds, exact affine extraction on a basis, z3 obligations T1/T2/T3"},
 ]
-NOTES = ("fix: commits in /repo: cb7d15f, 497f2e2 (C01), 03de9a5, c7b010c (C06), b47dfd5 (C10), 897b7c3 (C11), cb4fb7c (C12), 73fd273, 0d7cc36 (C20), fbaafd8 (C13), c89db21, 7c812ba (C14), 4335272, b792854, 75fd335 (C16), b37e413, 80f67c2, 99d5db9 (C18), c68bb85 (C19), 1c22b69 (C07), 18fb193, 1b8446a, 5eb1a03, 61eccb4 (C17); see known_findings.json 'fixed'. "
+NOTES = ("fix: commits in /repo: cb7d15f, 497f2e2 (C01), 03de9a5, c7b010c (C06), b47dfd5 (C10), 897b7c3 (C11), cb4fb7c (C12), 73fd273, 0d7cc36 (C20), fbaafd8 (C13), c89db21, 7c812ba (C14), 4335272, b792854, 75fd335 (C16), b37e413, 80f67c2, 99d5db9 (C18), c68bb85 (C19), 1c22b69 (C07), 18fb193, 1b8446a, 5eb1a03, 61eccb4 (C17), cfb1318, 94fc814, 4788479, bd219c5, 4a6829e (C09); see known_findings.json 'fixed'. "
          "Exit codes: 0 held / 1 VIOLATION (reproduced on the real code) / 2 harness error.")
 
 checks = []
